@@ -27,6 +27,7 @@ import (
 	"github.com/tendermint/tendermint/libs/autofile"
 	"github.com/tendermint/tendermint/libs/log"
 	tmos "github.com/tendermint/tendermint/libs/os"
+	"github.com/tendermint/tendermint/p2p"
 	tmcons "github.com/tendermint/tendermint/proto/tendermint/consensus"
 	tmtime "github.com/tendermint/tendermint/types/time"
 	tmtypes "github.com/tendermint/tendermint/types"
@@ -423,6 +424,39 @@ func c15MarshalAt(msg WALMessage, tm time.Time) []byte {
 }
 func c15Marshal(msg WALMessage) []byte { return c15MarshalAt(msg, tmtime.Now()) }
 
+// writeAt goes through the encoder directly (BaseWAL.Write minus the wall clock) so that the
+// encoded size is exact
+func (c *c15Case) writeAt(m c15Msg, tm time.Time) {
+	c.d.frames = nil
+	err := c.d.wal.enc.Encode(&TimedWALMessage{Time: tm, Msg: m.msg})
+	data := c.d.takeFrame()
+	if data == nil {
+		data = c15MarshalAt(m.msg, tm)
+	}
+	c.record(vg.App("XWrite", c15Pl(data), m.tag), vg.App("XAck", vg.B(err == nil)),
+		fmt.Sprintf("Encode(%s)[%d bytes]", m.text, len(data)), "op/Write")
+}
+
+// a message whose encoding at time tm has exactly `target` bytes: a valid block part from a
+// peer with a very long id (the id is the last field of the encoding)
+func c15SizedMsg(target int, tm time.Time) c15Msg {
+	l := target - 128
+	leaf := make([]byte, 32)
+	for i := 0; i < 8; i++ {
+		m := c15BlockPart(1, leaf, []byte{1})
+		mi := m.msg.(msgInfo)
+		mi.PeerID = p2p.ID(strings.Repeat("a", l))
+		m.msg = mi
+		n := len(c15MarshalAt(m.msg, tm))
+		if n == target {
+			m.text = fmt.Sprintf("msgInfo{BlockPart, PeerID: %d x 'a'}", l)
+			return m
+		}
+		l += target - n
+	}
+	panic("cannot size message")
+}
+
 func (c *c15Case) flush() {
 	err := c.d.wal.FlushAndSync()
 	if err == nil {
@@ -599,6 +633,33 @@ func TestVerifC15Directed(t *testing.T) {
 			c.restart(1<<30, 3, true)
 			c.search(2, false)
 			c.search(1, false)
+		})
+	}
+	// records at the size limit: encoder and decoder must agree on maxMsgSizeBytes
+	for _, delta := range []int{0, 1, -1} {
+		delta := delta
+		run(fmt.Sprintf("size-limit/%+d", delta), func(c *c15Case, r *vg.Rand) {
+			tm := time.Unix(1700000000, 123456789).UTC()
+			c.restart(0, 1, true)
+			c.writeAt(c15SizedMsg(maxMsgSizeBytes+delta, tm), tm)
+			c.write(c15EndHeight(1), true)
+			c.restart(1<<30, 2, true)
+		})
+	}
+	// known finding 1: the repair is tied to the catch-up replay.  A node that crashed in the
+	// middle of a record and then syncs blocks before consensus starts (doWALCatchup=false, or
+	// no marker for height-1 in the log) keeps the torn record and appends behind it.
+	for _, cu := range []bool{false, true} {
+		cu := cu
+		run(fmt.Sprintf("no-repair-without-catchup/%v", cu), func(c *c15Case, r *vg.Rand) {
+			c.restart(0, 1, true)
+			c.write(c15EndHeight(1), true)
+			c.write(c15RandMsg(r, 2), false)
+			c.restart(5, 6, cu) // torn record; consensus starts at height 6 after block sync
+			c.write(c15RandMsg(r, 6), true)
+			c.write(c15EndHeight(6), true)
+			c.restart(1<<30, 7, true)
+			c.search(6, true)
 		})
 	}
 	// every offset of the last two (unsynced) records, two crash cycles
